@@ -125,15 +125,15 @@ type plain[K typez.Ordered] struct {
 	from func(K) int
 }
 
-func (p *plain[K]) Raw() any                { return p.s }
-func (p *plain[K]) Set(k, v int)            { p.s.Set(p.to(k), v) }
-func (p *plain[K]) SetNx(k, v int) bool     { return p.s.SetNx(p.to(k), v) }
-func (p *plain[K]) SetX(k, v int) bool      { return p.s.SetX(p.to(k), v) }
-func (p *plain[K]) Get(k int) (int, bool)   { return p.s.Get(p.to(k)) }
-func (p *plain[K]) Len() int                { return p.s.Len() }
+func (p *plain[K]) Raw() any                 { return p.s }
+func (p *plain[K]) Set(k, v int)             { p.s.Set(p.to(k), v) }
+func (p *plain[K]) SetNx(k, v int) bool      { return p.s.SetNx(p.to(k), v) }
+func (p *plain[K]) SetX(k, v int) bool       { return p.s.SetX(p.to(k), v) }
+func (p *plain[K]) Get(k int) (int, bool)    { return p.s.Get(p.to(k)) }
+func (p *plain[K]) Len() int                 { return p.s.Len() }
 func (p *plain[K]) Remove(k int) (int, bool) { return p.s.Remove(p.to(k)) }
-func (p *plain[K]) Clear()                  { p.s.Clear() }
-func (p *plain[K]) Reinit()                 { p.s.Init() }
+func (p *plain[K]) Clear()                   { p.s.Clear() }
+func (p *plain[K]) Reinit()                  { p.s.Init() }
 func (p *plain[K]) GetNode(k int) (int, int, bool, func(int)) {
 	n := p.s.GetNode(p.to(k))
 	if n == nil {
@@ -185,15 +185,15 @@ type withCmp[K any] struct {
 	from func(K) int
 }
 
-func (p *withCmp[K]) Raw() any                { return p.s }
-func (p *withCmp[K]) Set(k, v int)            { p.s.Set(p.to(k), v) }
-func (p *withCmp[K]) SetNx(k, v int) bool     { return p.s.SetNx(p.to(k), v) }
-func (p *withCmp[K]) SetX(k, v int) bool      { return p.s.SetX(p.to(k), v) }
-func (p *withCmp[K]) Get(k int) (int, bool)   { return p.s.Get(p.to(k)) }
-func (p *withCmp[K]) Len() int                { return p.s.Len() }
+func (p *withCmp[K]) Raw() any                 { return p.s }
+func (p *withCmp[K]) Set(k, v int)             { p.s.Set(p.to(k), v) }
+func (p *withCmp[K]) SetNx(k, v int) bool      { return p.s.SetNx(p.to(k), v) }
+func (p *withCmp[K]) SetX(k, v int) bool       { return p.s.SetX(p.to(k), v) }
+func (p *withCmp[K]) Get(k int) (int, bool)    { return p.s.Get(p.to(k)) }
+func (p *withCmp[K]) Len() int                 { return p.s.Len() }
 func (p *withCmp[K]) Remove(k int) (int, bool) { return p.s.Remove(p.to(k)) }
-func (p *withCmp[K]) Clear()                  { p.s.Clear() }
-func (p *withCmp[K]) Reinit()                 { p.s.Init(p.cmp) }
+func (p *withCmp[K]) Clear()                   { p.s.Clear() }
+func (p *withCmp[K]) Reinit()                  { p.s.Init(p.cmp) }
 func (p *withCmp[K]) GetNode(k int) (int, int, bool, func(int)) {
 	n := p.s.GetNode(p.to(k))
 	if n == nil {
@@ -729,15 +729,41 @@ func build(variant int, zero bool) (omap, order, string) {
 		to := func(k int) string { return strconv.Itoa(k + 3) }
 		from := func(s string) int { n, _ := strconv.Atoi(s); return n - 3 }
 		return &withCmp[string]{listz.NewSkipListWithCmp[string, int](c), c, to, from}, orders[0], "SkipListWithCmp[string]/length-then-lex"
-	default:
+	case 6:
 		m := func(a, b int) int { return cmpInt(((a%7)+7)%7, ((b%7)+7)%7) }
 		return &withCmp[int]{listz.NewSkipListWithCmp[int, int](m), m, id, id}, orders[2], "SkipListWithCmp[int]/mod7"
+	case 7:
+		// a comparator is any function whose sign orders the keys: this one returns the difference
+		d := func(a, b int) int { return a - b }
+		return &withCmp[int]{listz.NewSkipListWithCmp[int, int](d), d, id, id}, orders[0], "SkipListWithCmp[int]/difference"
+	case 8:
+		// large magnitudes, and MinInt/MaxInt as the non-zero results
+		big := func(a, b int) int {
+			switch {
+			case a < b:
+				if (a+b)%2 == 0 {
+					return -1 << 62
+				}
+				return -7
+			case a > b:
+				if (a+b)%2 == 0 {
+					return 1<<62 + 5
+				}
+				return 2
+			}
+			return 0
+		}
+		return &withCmp[int]{listz.NewSkipListWithCmp[int, int](big), big, id, id}, orders[0], "SkipListWithCmp[int]/magnitudes"
+	default:
+		// reversed order expressed as a difference
+		r := func(a, b int) int { return 3 * (b - a) }
+		return &withCmp[int]{listz.NewSkipListWithCmp[int, int](r), r, id, id}, orders[1], "SkipListWithCmp[int]/reversed-difference"
 	}
 }
 
 func seqCase(c *ev.Case) {
 	rng := c.Rng
-	variant := rng.Intn(7)
+	variant := rng.Intn(10)
 	zero := variant <= 2 && rng.Chance(1, 4)
 	var l omap
 	var ord order
@@ -849,7 +875,7 @@ func zeroCase(c *ev.Case) {
 // tallCase: towers grow the top level one per insert; removing the tallest shrinks it by several.
 func tallCase(c *ev.Case) {
 	rng := c.Rng
-	variant := rng.Pick(0, 3, 4)
+	variant := rng.Pick(0, 3, 4, 7, 8, 9)
 	l, ord, name := build(variant, false)
 	sc := &script{rng: rng.Fork(), mode: 3}
 	s := &sut{c: c, l: l, m: &model{ord: ord}, sc: sc, maxKey: 64}
@@ -902,6 +928,7 @@ func main() {
 	r := ev.New("C02")
 	r.Rule("one case = (list type and key type / comparator, zero value or constructed, height script, key space, seeded operation sequence incl. range queries with present/absent/out-of-range bounds and early-stopping callbacks); every result compared with a sorted-slice model; distinct = hash of the write sequence + variant + height script")
 	r.Assume("tower heights are scripted by replacing the private *rand.Rand (field found by name and type); if it cannot be found the list's own randomness is used and counted as such")
+	r.Assume("comparators return any negative / zero / positive int (difference, large magnitudes), not only -1/0/1")
 	r.Assume("for the comparator that identifies keys modulo 7 the model also treats them as one key and compares keys up to that equivalence")
 	r.Assume("SkipListWithCmp is only used after Init with a comparator; the zero-value clause is checked for SkipList")
 	r.Cases("seq", r.N(40000, 2000000), ev.Opt{HangViolation: true}, seqCase)
